@@ -178,6 +178,8 @@ def units(tier):
             out.append(('soup', mi, a, b['indicator_maxlen'], INDICATORS))
     for mi in range(len(SOUP_MODELS)):
         out.append(('lexical', mi))
+    for i in range(len(unsupported_models())):
+        out.append(('unsupported', i))
     for i in range(len(cat(tier))):
         out.append(('docs', i))
     for i in range(len(hook_models())):
@@ -248,6 +250,58 @@ def cyclic_texts(case, tree):
     return out
 
 
+def unsupported_models():
+    """class models with annotations outside the supported type language (PEP 604 unions, forward references, string
+    annotations, built-in generics, Tuple, Set, Literal, a TypeVar, datetime): the model is at fault, but WHICH
+    exception the user sees still depends on the document - '{}' loads or is rejected, 'a: 1' reaches the annotation"""
+    import datetime
+    import typing
+    TV = typing.TypeVar('TV')
+    anns = [('pep604', int | None), ('forwardref', typing.Optional['K']), ('string', 'int'), ('builtin-generic', list[int]),
+            ('tuple', typing.Tuple[int, int]), ('set', typing.Set[int]), ('literal', typing.Literal[1, 2]), ('typevar', TV),
+            ('datetime', datetime.datetime), ('bytes', bytes), ('callable', typing.Callable[[], int])]
+    # (no typing generics OVER such annotations: typing caches List[int | str] and hands the same object out for a later
+    # List[Union[int, str]] - equal keys - which would leak this unit's model into every later unit of the process)
+    out = []
+    for name, ann in anns:
+        for required in (True, False):
+            def build(ann=ann, required=required):
+                if required:
+                    def __init__(self, a: ann, x: int = 0) -> None:
+                        pass
+                else:
+                    def __init__(self, x: int = 0, a: ann = None) -> None:
+                        pass
+                K = type('K', (), {'__init__': __init__})
+                return K
+            out.append((name + (':required' if required else ':optional'), build))
+    return out
+
+
+UNSUP_DOCS = None
+
+
+def unsupported_docs():
+    global UNSUP_DOCS
+    if UNSUP_DOCS is None:
+        r = docs.Renderer(yatiml.load_function().loader)
+        seen = []
+        for t in docs.tiny(3, ('a', 'x')):
+            try:
+                seen.append(r.render(t))
+            except Exception:     # noqa
+                pass
+        vals = [S('int', '1'), S('str', 's'), S('null', '~'), Q([S('int', '1')]), M([(S('str', 'x'), S('int', '1'))]), Q([]),
+                M([(S('str', 'a'), S('int', '1'))]), S('float', '1.5'), S('bool', 'true'), S('timestamp', '2001-01-01'),
+                Q([S('int', '1'), S('int', '2')]), S('!K', 'x'), M([], '!K')]
+        for v in vals:
+            for extra in ((), ((S('str', 'x'), S('int', '2')),), ((S('str', 'next'), M([(S('str', 'a'), v)])),)):
+                seen.append(r.render(M([(S('str', 'a'), v)] + list(extra))))
+            seen.append(r.render(v))
+        UNSUP_DOCS = list(dict.fromkeys(seen))
+    return UNSUP_DOCS
+
+
 HEXD = '01789aDfF'
 
 
@@ -280,6 +334,33 @@ def lexical_texts(tier):
 
 def run_unit(unit, tier):
     res = core.Result()
+    if unit[0] == 'unsupported':
+        name, build = unsupported_models()[unit[1]]
+        K = build()
+        for root_name, root in (('K', K), ('List[K]', __import__('typing').List[K]), ('Dict[str, K]', __import__('typing').Dict[str, K])):
+            try:
+                load = yatiml.load_function(root, K)
+            except Exception as e:     # noqa   (a model refused when the function is made is not input-dependent)
+                res.hist['model-refused-at-creation'] += 1
+                continue
+            for text in unsupported_docs():
+                for t2 in ([text] if root_name == 'K' else ['- ' + text.replace('\n', '\n  ').rstrip() + '\n', 'k:\n  ' + text.replace('\n', '\n  ').rstrip() + '\n']):
+                    res.states += 1
+                    res.transitions += 1
+                    res.traces += 1
+                    try:
+                        load(t2)
+                        res.hist['ok'] += 1
+                    except (yatiml.RecognitionError, yaml.YAMLError):
+                        res.hist['rej'] += 1
+                        res.nontrivial += 1
+                    except Exception as e:     # noqa
+                        res.hist['escaped:' + type(e).__name__] += 1
+                        res.violation('C08:%s:unsupported-annotation:%s' % (loadcase.exc_key(e), name.split(':')[0]),
+                                      '%s escapes load(%s) for a class whose parameter is annotated %s [root %s]: %s' % (
+                                          type(e).__name__, short(t2), name, root_name, str(e)[:120]),
+                                      {'unsupported': unit[1], 'root': root_name, 'text': t2})
+        return res
     if unit[0] == 'lexical':
         case = soup_case(unit[1])
         for s in lexical_texts(tier):
@@ -391,6 +472,18 @@ def finish(total, tier):
 
 
 def replay(payload):
+    if 'unsupported' in payload:
+        import typing
+        name, build = unsupported_models()[payload['unsupported']]
+        K = build()
+        root = {'K': K, 'List[K]': typing.List[K], 'Dict[str, K]': typing.Dict[str, K]}[payload['root']]
+        try:
+            yatiml.load_function(root, K)(payload['text'])
+        except (yatiml.RecognitionError, yaml.YAMLError) as e:
+            return False, 'load(%r) -> %s' % (payload['text'], type(e).__name__)
+        except Exception as e:     # noqa
+            return True, '%s escapes load(%r): %s' % (type(e).__name__, payload['text'], e)
+        return False, 'load(%r) returns' % payload['text']
     case = loadcase.Case(payload['spec'])
     o = case.impl(payload['text'])
     if o[0] == 'exc':
